@@ -41,7 +41,9 @@ class MTensor:
         self.arr = arr
         self.cov = sorted(cov)
         self.con = sorted(con)
-        self.int8 = int8
+        # largest magnitude the dtype of the library-side array can hold if it is a narrow one, else 0:
+        # True -> 127 (int8: epsilon, delta(n,n)), 1 -> bool, False/0 -> wide (int64, float64, complex128)
+        self.int8 = 127 if int8 is True else int(int8)
 
     @property
     def shape(self):
@@ -147,13 +149,16 @@ def make_cfg(rng: random.Random) -> dict:
         "n_faults": rng.choice([0, 1, 1, 2, 3]),
         "p_cache_ops": rng.choice([0.05, 0.15, 0.3]),
         "p_self_edge_new": rng.choice([0.0, 0.0, 0.02]),
+        "exotic": rng.random() < 0.4,      # rank-0 nodes, length-1 axes, float/bool/int32 dtypes, non-contiguous layouts
+        "many_small": rng.random() < 0.25,  # many low-rank nodes: diagrams with up to ~12 nodes
         "warm": [],
     }
 
 
 def gen_tensor_recipe(rng, cfg, slot) -> tuple[dict, MTensor]:
-    r = rng.choice([1, 1, 2, 2, 2, 3, 3, 4])
-    shape = [cfg["main_n"] if rng.random() < 0.8 else rng.choice([2, 3, 4]) for _ in range(r)]
+    r = rng.choice([1, 1, 2, 2, 2, 3, 3, 4, 0] if cfg.get("exotic") else [1, 1, 2, 2, 2, 3, 3, 4])
+    shape = [cfg["main_n"] if rng.random() < 0.8 else rng.choice([2, 3, 4, 1] if cfg.get("exotic") else [2, 3, 4])
+             for _ in range(r)]
     c = rng.random()
     if c < 0.25:
         cov = list(range(r))
@@ -169,11 +174,28 @@ def gen_tensor_recipe(rng, cfg, slot) -> tuple[dict, MTensor]:
         rec = {"slot": slot, "k": "ctensor", "a": [re, im], "kw": {"cov": cov}}
     else:
         arr = np.array(re, dtype=np.int64)
-        rec = {"slot": slot, "k": "tensor", "a": [re], "kw": {"cov": cov if cov else False, "dt": "i"}}
+        kw = {"cov": cov if cov else False, "dt": "i"}
+        if cfg.get("exotic"):
+            c2 = rng.random()
+            if c2 < 0.15:
+                kw["dt"] = "f"               # small integers are exact in float64 too
+            elif c2 < 0.25:
+                kw["dt"] = "b"
+                arr = (arr != 0).astype(np.int64)
+                re = arr.astype(bool).tolist()
+                rec = {"slot": slot, "k": "tensor", "a": [re], "kw": kw}
+                return rec, MTensor(arr, cov, con, int8=1)
+            elif c2 < 0.3:
+                kw["dt"] = "i32"
+            if r >= 1 and rng.random() < 0.3:
+                kw["layout"] = rng.choice(["F", "T", "S"])
+        rec = {"slot": slot, "k": "tensor", "a": [re], "kw": kw}
     return rec, MTensor(arr, cov, con)
 
 
 def _nested(rng, shape):
+    if len(shape) == 0:
+        return rng.randint(-3, 3)
     if len(shape) == 1:
         return [rng.randint(-3, 3) for _ in range(shape[0])]
     return [_nested(rng, shape[1:]) for _ in range(shape[0])]
@@ -200,9 +222,11 @@ class ProgGen:
 
     def pool(self):
         rng, cfg = self.rng, self.cfg
-        for _ in range(rng.randint(4, 8)):
+        for _ in range(rng.randint(8, 14) if cfg.get("many_small") else rng.randint(4, 8)):
             s = self.new_t()
             rec, mt = gen_tensor_recipe(rng, cfg, s)
+            if cfg.get("many_small") and mt.arr.ndim > 2:
+                rec, mt = gen_tensor_recipe(rng, dict(cfg, exotic=False), s)
             self.recipes.append(rec)
             self.tensors[s] = mt
         n = cfg["main_n"]
@@ -262,7 +286,7 @@ class ProgGen:
                     dd.add_edge(s, t, self.tensors)
                 except ModelError:
                     continue
-                if dd.size(self.tensors) <= MAX_ELEMS and sum(self.tensors[x].arr.ndim for x in dd.nodes) <= 12:
+                if dd.size(self.tensors) <= MAX_ELEMS and sum(self.tensors[x].arr.ndim for x in dd.nodes) <= 24:
                     out.append((s, t))
         return out
 
@@ -303,7 +327,7 @@ class ProgGen:
             return st
         d_id = self.pick_diagram(client)
         r = rng.random()
-        if d_id is None or r < 0.12:
+        if d_id is None or r < (0.04 if cfg.get("many_small") else 0.12):
             # new diagram, possibly with initial edges through the constructor
             d = MDiagram()
             edges = []
@@ -382,7 +406,7 @@ class ProgGen:
                 t = rng.choice(cands)
                 dd = d.copy()
                 dd.add_node(t, self.tensors)
-                if dd.size(self.tensors) <= MAX_ELEMS and sum(self.tensors[x].arr.ndim for x in dd.nodes) <= 12:
+                if dd.size(self.tensors) <= MAX_ELEMS and sum(self.tensors[x].arr.ndim for x in dd.nodes) <= 24:
                     d.add_node(t, self.tensors)
                     self.hist.setdefault(d_id, []).append(["n", t])
                     return {"i": i, "c": client, "op": "add_node", "d": d_id, "t": t}
@@ -426,7 +450,7 @@ class ProgGen:
         try:
             d.add_edge(s, t, self.tensors)
             self.hist.setdefault(d_id, []).append(["e", s, t])
-            if d.size(self.tensors) > MAX_ELEMS or sum(self.tensors[x].arr.ndim for x in d.nodes) > 12:
+            if d.size(self.tensors) > MAX_ELEMS or sum(self.tensors[x].arr.ndim for x in d.nodes) > 24:
                 del self.diagrams[d_id]   # too big for the exact model: never evaluated again
                 st["retire"] = True
         except ModelError:
@@ -450,10 +474,11 @@ def model_tensors_from_recipes(recipes) -> dict[int, MTensor]:
     for r in recipes:
         k, a, kw = r["k"], r.get("a", []), r.get("kw", {})
         if k == "tensor":
-            arr = np.array(a[0], dtype=np.int64)
+            arr = np.array(a[0]).astype(np.int64)
             cov = kw.get("cov", True)
             cov = list(range(arr.ndim)) if cov is True else ([] if cov is False else list(cov))
-            ts[r["slot"]] = MTensor(arr, cov, [i for i in range(arr.ndim) if i not in cov])
+            ts[r["slot"]] = MTensor(arr, cov, [i for i in range(arr.ndim) if i not in cov],
+                                    int8=1 if kw.get("dt") == "b" else False)
         elif k == "ctensor":
             arr = np.array(a[0], dtype=np.int64) + 1j * np.array(a[1], dtype=np.int64)
             cov = list(kw.get("cov", []))
@@ -614,8 +639,13 @@ def expectations(case: dict, state: dict | None = None) -> dict[int, tuple]:
     return exp
 
 
-def _all_int8(d: MDiagram, ts) -> bool:
-    return all(ts[t].int8 for t in d.nodes)
+def _all_int8(d: MDiagram, ts) -> int:
+    """0 if some node has a wide dtype; otherwise the largest value the (narrow) result dtype can hold: 127 if an
+    int8 node takes part, 1 if all nodes are bool. numpy keeps the narrow dtype when ALL operands have it."""
+    caps = [ts[t].int8 for t in d.nodes]
+    if not caps or any(c == 0 for c in caps):
+        return 0
+    return max(caps)
 
 
 # ---------------------------------------------------------------------------------------------------------------------
@@ -636,8 +666,8 @@ def compare_value(step, got, exp_payload, flags=()) -> dict | None:
                             f"model predicts a value, library raised {type(got).__name__}: {got}", flags)
     if not isinstance(got, Tensor):
         return mk_violation(step, "not-a-tensor", f"library returned {type(got).__name__}", flags)
-    if all_int8 and bound > 127:
-        return None  # int8 overflow of all-epsilon diagrams is an input/dtype matter, out of scope here
+    if all_int8 and bound > int(all_int8):
+        return "skip"  # overflow of all-int8 (epsilon) / all-bool diagrams is an input/dtype matter, out of scope here
     if len(exp_payload) > 5:
         cov, con = exp_payload[5], exp_payload[6]
         if sorted(got._covariant_indices) != list(cov) or sorted(got._contravariant_indices) != list(con):
@@ -807,6 +837,9 @@ class Exec:
             self.stats["values_compared"] = self.stats.get("values_compared", 0) + 1
             if op == "self_edge_new":
                 D.pop(st["d"], None)
+            if isinstance(v, str):   # narrow-dtype overflow: not judged, and the result is not used as a node either
+                self.stats["narrow_dtype_skips"] = self.stats.get("narrow_dtype_skips", 0) + 1
+                return None
             if v is not None:
                 return v
             if "to" in st and not is_exc:
@@ -944,7 +977,7 @@ def final_checks(ex: Exec, steps) -> dict | None:
         ex.stats["lines"] += ctx.end()
         v = compare_value(st, r, md.evaluate(ts) + (_all_int8(md, ts),), md.flags)
         ex.stats["values_compared"] = ex.stats.get("values_compared", 0) + 1
-        if v is not None:
+        if v is not None and not isinstance(v, str):
             v["detail"] = f"final evaluation of diagram {d_id}: " + v["detail"]
             return v
     for n in (1, 2, 3, 4):
